@@ -1,6 +1,7 @@
 package props
 
 import (
+	"bytes"
 	"context"
 	"encoding/base64"
 	"fmt"
@@ -534,6 +535,26 @@ func runC09(c *h.Ctx) {
 		}
 		cs.Info("bad", trunc(bad))
 		cv := j2p.NewBinaryConv(conv.Options{})
+		// an output handed out before the sequence (through DoInto and through Do) must still be the same bytes after it
+		m0 := PGenMsg(cs.R, st.md, PValCfg{MaxElems: 3, MaxDepth: 2}, 0)
+		doc0, _ := PRenderJSON(cs.R, m0, PJSpell{})
+		held := make([]byte, 0, 8)
+		var heldCopy, held2, held2Copy []byte
+		if err := cv.DoInto(context.Background(), st.desc, []byte(doc0), &held); err == nil {
+			heldCopy = append([]byte{}, held...)
+		}
+		if o2, err := cv.Do(context.Background(), st.desc, []byte(doc0)); err == nil {
+			held2, held2Copy = o2, append([]byte{}, o2...)
+		}
+		defer func() {
+			if heldCopy != nil && !bytes.Equal(held, heldCopy) {
+				cs.Viol("j2p:held-output-changed:DoInto", "was", heldCopy, "now", held)
+			} else if held2Copy != nil && !bytes.Equal(held2, held2Copy) {
+				cs.Viol("j2p:held-output-changed:Do", "was", held2Copy, "now", held2)
+			} else if heldCopy != nil {
+				cs.Cover("held_output_intact_after_sequence")
+			}
+		}()
 		for k := 0; k < 1+cs.R.Intn(2); k++ {
 			if _, err := cv.Do(context.Background(), st.desc, []byte(bad)); err != nil {
 				cs.Cover("failing_conversion_before_valid_one")
